@@ -123,7 +123,10 @@ def _verify_worker(fq: str, timeout_ms: int, seed: int, jobs: int = 8):
 def _native_worker(spec_module: str, cname: str, n: int, seed: int):
     try:
         import logging
+        import warnings
         logging.disable(logging.CRITICAL)  # the real code logs expected failures (e.g. a raising user policy)
+        # (pending worker coroutines of a stand-in runner are never started: no "never awaited" noise on stderr)
+        warnings.filterwarnings("ignore", category=RuntimeWarning)
         from . import native
         return native.search(spec_module, cname, n, seed, stop_at=5)
     except Exception as e:
